@@ -45,6 +45,8 @@ type srcTable struct {
 	extra   int // number of attribute columns besides fid (1..3): name [, val [, n]]
 	srs     int32
 	rows    []srcRow
+	// gpkg_contents.srs_id is optional in a GeoPackage and need not repeat gpkg_geometry_columns.srs_id: NULL for some tables
+	contentsSrsNull bool
 }
 
 var attrNames = []string{"name", "val", "n", "name2", "val2", "n2"}
@@ -111,6 +113,11 @@ func makeSource(path string, tables []*srcTable) {
 			GeometryType: t.gtype, SRS: t.srs, Z: gsgpkg.Prohibited, M: gsgpkg.Prohibited}); err != nil {
 			fatal("add geometry table: %v", err)
 		}
+		if t.contentsSrsNull {
+			if _, err := h.Exec(`UPDATE gpkg_contents SET srs_id = NULL WHERE table_name = ?`, t.name); err != nil {
+				fatal("contents srs: %v", err)
+			}
+		}
 		cols := append([]string{"fid"}, t.attrCols()...)
 		cols = append(cols, t.gcol)
 		q := fmt.Sprintf(`INSERT INTO "%s"(%s) VALUES(%s)`, t.name, strings.Join(cols, ","), strings.TrimRight(strings.Repeat("?,", len(cols)), ","))
@@ -172,6 +179,7 @@ func randGeom(rng *rand.Rand, gtype gsgpkg.GeometryType, i int) (geom.Geometry, 
 func randTable(rng *rand.Rand, name string, count int, gtype gsgpkg.GeometryType) *srcTable {
 	t := &srcTable{name: name, gcol: []string{"geom", "geometry", "shape"}[rng.Intn(3)], gtype: gtype, extra: 1 + rng.Intn(3), srs: []int32{28992, 4326, 100001}[rng.Intn(3)]}
 	t.gcolPos = rng.Intn(t.extra + 1)
+	t.contentsSrsNull = rng.Intn(4) == 0
 	fid := int64(rng.Intn(5))
 	for i := 0; i < count; i++ {
 		fid += 1 + int64(rng.Intn(3))
